@@ -40,9 +40,14 @@ func newVC(P *Program, fn *ssa.Function, spec *FuncSpec) *VC {
 func (vc *VC) reset() {
 	w := vc.written
 	ab := vc.allocBlock
+	su := vc.symsUsed
 	*vc = *newVC(vc.P, vc.fn, vc.spec)
 	// the write sets of the discovery pass are frozen: the real pass records into a scratch map
 	vc.writtenFrozen = w
+	vc.symsFrozen = su
+	if vc.symsFrozen == nil {
+		vc.symsFrozen = map[string]bool{}
+	}
 	vc.written = map[*ssa.BasicBlock]map[string]map[string]bool{}
 	// allocation sites found by the discovery pass (value names are stable across passes)
 	for k, b := range ab {
@@ -402,6 +407,9 @@ func (vc *VC) run() (err error) {
 	// global axioms and type invariants of the contract file
 	envAx := &Env{vc: vc, st: vc.entry, old: vc.entry, vars: map[string]Term{}, pkg: vc.P.logPkg.Types}
 	for _, ax := range vc.P.spec.Axioms {
+		if ax.Label != "" && !vc.symsFrozen[ax.Label] {
+			continue // conditional axiom: the contracts of this function never mention its subject
+		}
 		s, err := envAx.boolean(ax.Expr)
 		if err != nil {
 			return fmt.Errorf("axiom %s:%d: %v", ax.File, ax.Line, err)
